@@ -10,6 +10,7 @@ Anything outside the subset raises Unsupported (-> UNKNOWN, exit 2), never a ver
 """
 import ast
 import operator as _o
+import inspect as _inspect
 import re as _re
 import struct as _struct
 
@@ -309,6 +310,7 @@ class Interp:
         for n in BUILTIN_EXC:
             self.builtin_types[n] = BuiltinType(n)
         self.steps = 0
+        self.gen_stack = []
         self.isinstance_hook = None   # fn(value, classval) -> bool | None
         self.attr_hook = None         # fn(obj, name) -> value | NotImplemented
         self.call_hook = None         # fn(interp, fval, args, kwargs, node) -> value | NotImplemented
@@ -320,6 +322,11 @@ class Interp:
         v = sym.var(name, "int")
         self.cellvars[v] = Cell(lo, hi, par)
         return v
+
+    def add_cell(self, expr, lo=None, hi=None, par=None):
+        """track an arbitrary integer atom (e.g. len(s)) with an interval cell"""
+        self.cellvars[expr] = Cell(lo, hi, par)
+        return expr
 
     def explore(self, thunk):
         results = []
@@ -408,7 +415,7 @@ class Interp:
         """d (an int value) as k*v + c for exactly one cell variable v"""
         if not is_sym(d):
             return None
-        if d[0] == "var" and d in self.cells:
+        if d in self.cells:
             return d, 1, 0
         if d[0] == "lin" and len(d[1]) == 1 and d[1][0][0] in self.cells:
             return d[1][0][0], d[1][0][1], d[2]
@@ -1204,7 +1211,7 @@ class Interp:
         if is_sym(key):
             if isinstance(obj, (list, tuple)) and sym.kind(key) in ("int", "bool"):
                 return sym.op("select", tuple(obj), key)
-            return sym.op("item", obj if not isinstance(obj, (list, dict)) else sym.op("const", repr(obj)[:80]), key)
+            return sym.op("item", obj if not isinstance(obj, (list, dict)) else sym.op("const", id(obj)), key)
         try:
             return obj[key]
         except (KeyError, IndexError, TypeError) as ex:
@@ -1253,7 +1260,14 @@ class Interp:
             return v
         if isinstance(obj, ModuleVal):
             return self.module_get(obj.name, name)
+        if isinstance(obj, (_inspect.Signature, _inspect.Parameter)) and name in ("parameters", "name", "kind", "default"):
+            v = getattr(obj, name)
+            return dict(v) if name == "parameters" else v
         if isinstance(obj, Ext):
+            if obj.dotted == "re" and name in ("I", "IGNORECASE", "M", "S", "X"):
+                return getattr(_re, name)
+            if obj.dotted == "inspect.Parameter" and name in ("empty", "POSITIONAL_ONLY", "POSITIONAL_OR_KEYWORD", "VAR_POSITIONAL", "KEYWORD_ONLY", "VAR_KEYWORD"):
+                return getattr(_inspect.Parameter, name)
             return Ext(obj.dotted + "." + name)
         if isinstance(obj, SuperProxy):
             mro = obj.obj.cls.mro() if isinstance(obj.obj, Rec) else obj.obj.mro()
@@ -1286,6 +1300,8 @@ class Interp:
         if isinstance(obj, BuiltinType):
             if name == "__name__":
                 return obj.name
+            if name.startswith("__"):
+                raise Raised(ExcVal("AttributeError", args=(name,)))
             return Ext(f"builtins.{obj.name}.{name}")
         if isinstance(obj, ExcVal):
             return sym.op("attr", sym.var(f"exc:{obj.name}", "any"), name)
@@ -1391,6 +1407,12 @@ class Interp:
         elem = sym.op("elem", si.it)
         self.assign(si.gen.target, elem, env2, mod)
         return sym.op("map", self.ev(e.elt, env2, mod), si.it)
+
+    def e_Yield(self, e, env, mod):
+        if not self.gen_stack:
+            raise Unsupported("yield outside generator")
+        self.gen_stack[-1].append(self.ev(e.value, env, mod) if e.value is not None else None)
+        return None
 
     def e_NamedExpr(self, e, env, mod):
         v = self.ev(e.value, env, mod)
@@ -1617,7 +1639,9 @@ class Interp:
         if name in ("append", "extend") and isinstance(obj, bytearray) and any(is_sym(a) for a in args):
             raise Unsupported("symbolic bytearray append")
         if any(is_sym(a) for a in args):
-            if name in ("append", "insert", "setdefault", "get", "extend", "update", "add", "count", "index"):
+            if name == "index" and isinstance(obj, (str, list, tuple)):
+                return sym.op("index", obj if isinstance(obj, str) else tuple(obj), *args)
+            if name in ("append", "insert", "setdefault", "get", "extend", "update", "add", "count"):
                 pass
             elif name in ("ljust", "rjust") and isinstance(obj, (bytes, str)):
                 return sym.op("ljustb" if isinstance(obj, bytes) else "ljust", obj, *args)
@@ -1746,6 +1770,30 @@ class Interp:
             return _re.I
         if d == "typing.NewType":
             return NewTypeVal(args[0], args[1])
+        if d == "inspect.signature":
+            fn = args[0]
+            if not isinstance(fn, Closure):
+                raise Unsupported("inspect.signature of non-function")
+            a = fn.node.args
+            P = _inspect.Parameter
+            params = []
+            pos = a.posonlyargs + a.args
+            nd = len(getattr(fn, "defaults", []))
+            for i, p in enumerate(pos):
+                kind_ = P.POSITIONAL_ONLY if i < len(a.posonlyargs) else P.POSITIONAL_OR_KEYWORD
+                default = fn.defaults[i - (len(pos) - nd)] if i >= len(pos) - nd else P.empty
+                params.append(P(p.arg, kind_, default=_Wrapped(default) if default is not P.empty and not isinstance(default, (int, str, type(None), bool, bytes)) else default))
+            if a.vararg:
+                params.append(P(a.vararg.arg, P.VAR_POSITIONAL))
+            for i, p in enumerate(a.kwonlyargs):
+                params.append(P(p.arg, P.KEYWORD_ONLY, default=fn.kw_defaults[i] if a.kw_defaults[i] is not None else P.empty))
+            if a.kwarg:
+                params.append(P(a.kwarg.arg, P.VAR_KEYWORD))
+            return _inspect.Signature(params)
+        if d in ("typing.get_origin",):
+            return None
+        if d in ("typing.get_args",):
+            return ()
         if d == "typing.get_type_hints":
             fn = args[0]
             if isinstance(fn, Closure):
@@ -1865,6 +1913,19 @@ class Interp:
                 env.fn_cls_ctx = fn.cls_ctx
             if isinstance(fn.node, ast.Lambda):
                 return self.ev(fn.node.body, env, mod)
+            is_gen = getattr(fn.node, "_is_gen", None)
+            if is_gen is None:
+                is_gen = fn.node._is_gen = any(isinstance(n, (ast.Yield, ast.YieldFrom)) for n in _walk_local(fn.node))
+            if is_gen:
+                self.gen_stack.append([])
+                try:
+                    try:
+                        self.exec_block(fn.node.body, env, mod)
+                    except _Return:
+                        pass
+                    return list(self.gen_stack[-1])
+                finally:
+                    self.gen_stack.pop()
             try:
                 self.exec_block(fn.node.body, env, mod)
             except _Return as r:
@@ -1943,6 +2004,21 @@ class Interp:
             elif args or kwargs:
                 raise Raised(ExcVal("TypeError", args=(f"{cls.name}() takes no arguments",)))
         return obj
+
+
+def _walk_local(fn):
+    stack = list(fn.body)
+    while stack:
+        n = stack.pop()
+        yield n
+        if isinstance(n, FUNC_TYPES + (ast.ClassDef,)):
+            continue
+        stack.extend(ast.iter_child_nodes(n))
+
+
+class _Wrapped:
+    def __init__(self, v):
+        self.v = v
 
 
 class _SymIter(Exception):
